@@ -297,7 +297,13 @@ def gen_valid_frames(rng, n, big_body=False):
     return out
 
 
+class TooManyFailures(Exception):
+    pass
+
+
 def check_delivery(res, ep, frames, segments, label, case):
+    if sum(1 for v in res.violations if v["class"] == "segmentation") >= 5:
+        raise TooManyFailures
     before = len(ep.got)
     ep.feed(segments)
     ok = ep.settle(before + len(frames))
@@ -308,13 +314,20 @@ def check_delivery(res, ep, frames, segments, label, case):
     if not ok or have != want:
         what = "delivered blocks differ from the frames sent (lost / duplicated / merged / reordered)" if ok else \
             "not all frames were delivered within 5 s or bytes were left in the receive buffer"
-        res.violate("segmentation", what, case, [M.show_header(M.mk_header(v)) + " " + hexs(b)[:40] for v, b in want][:6],
+        res.violate("segmentation", what, case, [" ".join(map(str, v)) + " " + hexs(b)[:40] for v, b in want][:6],
                     [" ".join(map(str, h)) + " " + hexs(b)[:40] for h, b in have][:6])
         return False
     return True
 
 
 def threads_part(res, rng, big):
+    try:
+        threads_part_body(res, rng, big)
+    except TooManyFailures:
+        res.notes.append("5 threaded deliveries failed: the rest of the threaded part is skipped (each failure costs the 5 s bound)")
+
+
+def threads_part_body(res, rng, big):
     ep = Endpoint()
     n_scen = 0
     # every single cut position of a two-frame stream (exhaustive), several frame pairs
@@ -413,9 +426,10 @@ def main():
                 "partitions, one segment, 1024-byte reads. distinct = distinct canonical input; non-trivial = not an input of the wrong size")
     if recorded:
         replay_cases(res, recorded)
-    codec_part(res, rng.fork("codec"), drv, big)
-    feed_part(res, rng.fork("feed"), drv, big)
-    threads_part(res, rng.fork("threads"), big)
+    for name, part in (("codec", lambda: codec_part(res, rng.fork("codec"), drv, big)),
+                       ("feed", lambda: feed_part(res, rng.fork("feed"), drv, big)),
+                       ("threads", lambda: threads_part(res, rng.fork("threads"), big))):
+        M.guarded(res, name, part)
     res.notes.append("quiescence of the threaded runs = expected number of blocks captured, receive buffer and dispatch queue empty (bound 5 s)")
     res.dump(a.out)
     sys.stdout.flush()
